@@ -249,7 +249,7 @@ extern "C" void h_sv_dot_dense()
    VectorBase<double> w(DIM); double wd[DIM];
    {  // sparse operand symbolic, dense operand = weights
       El mem[CAP]; SV v(CAP, mem);
-      In in; draw(in, 0, NNZ, true, 4); fill(v, in);
+      In in; draw(in, 0, NNZ, true, VDOT); fill(v, in);
       for(int i = 0; i < DIM; ++i) { wd[i] = WEIGHT[i]; w[i] = wd[i]; }
       vp_assert(v * w == refdot(in.d, wd), 1);
    }
